@@ -26,7 +26,7 @@ type c18JSONCase struct {
 }
 
 func c18JSONCheck(ctx *vfCtx, c c18JSONCase) {
-	s := c18NewState(ctx, "C18/json")
+	s := c18NewState(ctx, "C18")
 	text := []byte(c.Text)
 	var err error
 	s.call("CanonicalJSON", func() { _, err = CanonicalJSON(c18Copy(text)) })
@@ -135,7 +135,7 @@ type c18SignCase struct {
 }
 
 func c18SignCheck(ctx *vfCtx, c c18SignCase) {
-	s := c18NewState(ctx, "C18/sign")
+	s := c18NewState(ctx, "C18")
 	msg := []byte(c.Message)
 	var verr, lerr, serr error
 	var ids []KeyID
@@ -333,7 +333,7 @@ func (c c18KeyClient) LookupServerKeys(ctx context.Context, matrixServer spec.Se
 var c18KeysNow = time.UnixMilli(1700000000000)
 
 func c18KeysCheck(ctx *vfCtx, c c18KeysCase) {
-	s := c18NewState(ctx, "C18/keys")
+	s := c18NewState(ctx, "C18")
 	var keys ServerKeys
 	var err error
 	if s.call("ServerKeys.UnmarshalJSON", func() { err = json.Unmarshal(c18Copy(c.Body), &keys) }) {
@@ -418,8 +418,7 @@ func c18GenKeys(t *rapid.T) c18KeysCase {
 	if rapid.Bool().Draw(t, "old") {
 		obj = obj.with("old_verify_keys", jobj("ed25519:old", jobj("key", keyv("ko"), "expired_ts", rapid.SampledFrom([]jv{jnum(1000), jnum(0), {K: '#', S: "-5"}, jstr("x"), {K: 'n'}}).Draw(t, "expired"))))
 	}
-	nm := rapid.IntRange(0, 2).Draw(t, "nmut")
-	for i := 0; i < nm; i++ {
+	if rapid.IntRange(0, 2).Draw(t, "mutate") == 0 {
 		obj = c18Mutate(t, obj, false, 0)
 	}
 	if obj.K == 'o' {
